@@ -3,7 +3,10 @@
  * m = n = CAP fixed, W and jcol fixed per variant, every work array with exactly its documented size:
  *   marker m*NO_MARKER (three sections; this routine uses the second one, marker1 = marker+m, stamp jcol), spa_marker m*W (stamp jj in the
  *   section of column jj), repfnz / panel_lsub / dense m*W, xplore 2m, parent m, segrep m, lbusy n, w_lsub_end W
- * for every well-formed L-subscript structure of the columns < jcol and every A(:, jcol..jcol+W-1) with at most ACOL entries per column.
+ * for every well-formed L-subscript structure of the columns < jcol (arbitrary supernode partition and numbering, arbitrary -- also overlapping --
+ * placement of the lists inside lsub[0..LC), at most RL subscripts in the range the search scans at a representative) and every
+ * A(:, jcol..jcol+W-1) with at most ACOL entries per column (duplicates allowed).  The loops of the routine are UNWOUND (no loop contracts: cbmc
+ * 6.11 cannot attach contracts to the do { while ... } while shape of the search); the unwinding assertions prove the bounds sufficient.
  * The results are compared with a brute-force reachability computation written down here (definition, not a copy of the dfs):
  *   REACH(jj) = least set of rows containing the rows of A(:,jj) and, with every pivoted row r whose column c = perm_r[r] is NOT busy for
  *   this panel (lbusy[c] != jcol), the rows the dfs scans at the representative (last column) of c's supernode
@@ -12,8 +15,14 @@
  * REACH(jj) in k's supernode (EMPTY if none); segrep[0..nseg) = the representatives reached by some column, once each, a representative after
  * everything it reaches; dense(jj) = A(:,jj) scattered, nothing else; (c) a pivoted row is a dead end exactly when lbusy[perm_r[row]] == jcol
  * (other lbusy values -- stale stamps, EMPTY -- do not matter); (d) arbitrary marker / spa_marker contents other than the stamps of this call;
- * (e) frame. */
+ * (e) frame: panel_lsub beyond w_lsub_end, segrep beyond nseg, the other two marker sections, perm_r, xprune, ispruned, lbusy, A and Glu are not written;
+ * parent[] and xplore[] are scratch: they enter with arbitrary contents (C18) and nothing is claimed about them afterwards. */
 #define M CAP
+#if @cplx@
+#define VEQ(x, y) ((x).r == (y).r && (x).i == (y).i)
+#else
+#define VEQ(x, y) ((x) == (y))
+#endif
 int_t nondet_int_t(void); @T@ nondet_val(void);
 int_t in_pnum, in_jcol, in_nseg;
 SuperMatrix in_A; NCPformat in_Astore; @T@ in_a[NNZ]; int_t in_asub[NNZ], in_colbeg[M], in_colend[M];
@@ -24,7 +33,7 @@ GlobalLU_t in_Glu; int_t in_xsup[M+1], in_xsup_end[M+1], in_supno[M], in_lsub[LC
 /* ghosts: pre-state copies, oracle */
 int_t g_marker0[M*NO_MARKER], g_spa0[M*W], g_perm0[M], g_xprune0[M], g_ispruned0[M], g_lbusy0[M], g_asub0[NNZ], g_colbeg0[M], g_colend0[M];
 int_t g_xsup0[M+1], g_xsup_end0[M+1], g_supno0[M], g_lsub0[LC], g_xlsub0[M], g_xlsub_end0[M];
-@T@ g_dense0[M*W], g_a0[NNZ]; GlobalLU_t g_Glu0;
+@T@ g_dense0[M*W], g_a0[NNZ]; GlobalLU_t g_Glu0; int_t g_plsub0[M*W], g_segrep0[M];
 int_t g_lo[M], g_hi[M], g_isrep[M], g_rep[M];     /* scan range of a representative; rep[c] = representative of column c's supernode */
 int_t g_reach[W][M], g_fnz[W][M], g_repreached[M];
 int_t g_t, g_r, g_k, g_p, g_q;
@@ -57,8 +66,8 @@ void h_panel_dfs(void) {
   /* ---------- well-formed pre-state ---------- */
   /* the panel's columns of A: extents inside the arrays, row indices < m (duplicates allowed), values are numbers */
   for (c = 0; c < M; c++) __CPROVER_assume(0 <= in_colbeg[c] && in_colbeg[c] <= in_colend[c] && in_colend[c] <= NNZ && in_colend[c] - in_colbeg[c] <= ACOL);
-  for (p = 0; p < NNZ; p++) __CPROVER_assume(0 <= in_asub[p] && in_asub[p] < M && in_a[p] == in_a[p]);
-  for (c = 0; c < M * W; c++) __CPROVER_assume(in_dense[c] == in_dense[c]);
+  for (p = 0; p < NNZ; p++) __CPROVER_assume(0 <= in_asub[p] && in_asub[p] < M && VEQ(in_a[p], in_a[p]));
+  for (c = 0; c < M * W; c++) __CPROVER_assume(VEQ(in_dense[c], in_dense[c]));
   /* pivots done so far belong to columns before the panel ("0 <= kperm < jcol"); lbusy holds arbitrary stamps */
   for (r = 0; r < M; r++) __CPROVER_assume(in_perm_r[r] == EMPTY || (0 <= in_perm_r[r] && in_perm_r[r] < in_jcol));
   /* columns c < jcol: supernode maps consistent, subscript extents inside lsub, row indices < m */
@@ -79,7 +88,7 @@ void h_panel_dfs(void) {
       g_isrep[k] = 1;
       if (in_ispruned[k]) { g_lo[k] = (in_xsup_end[s] - in_xsup[s] == 1) ? in_xlsub_end[k] : in_xlsub[k]; g_hi[k] = in_xprune[k]; }
       else { g_lo[k] = in_xlsub[fs] + k - fs + 1; g_hi[k] = in_xlsub_end[fs]; }
-      __CPROVER_assume(g_hi[k] - g_lo[k] <= M - k);
+      __CPROVER_assume(g_hi[k] - g_lo[k] <= M - k && g_hi[k] - g_lo[k] <= RL);
       for (p = 0; p < LC; p++) if (g_lo[k] <= p && p < g_hi[k]) __CPROVER_assume(in_perm_r[in_lsub[p]] == EMPTY || in_perm_r[in_lsub[p]] >= k);
     }
   }
@@ -93,7 +102,8 @@ void h_panel_dfs(void) {
 
   /* ---------- ghost copies ---------- */
   for (c = 0; c < M * NO_MARKER; c++) g_marker0[c] = in_marker[c];
-  for (c = 0; c < M * W; c++) { g_spa0[c] = in_spa_marker[c]; g_dense0[c] = in_dense[c]; }
+  for (c = 0; c < M * W; c++) { g_spa0[c] = in_spa_marker[c]; g_dense0[c] = in_dense[c]; g_plsub0[c] = in_panel_lsub[c]; }
+  for (c = 0; c < M; c++) g_segrep0[c] = in_segrep[c];
   for (c = 0; c < M; c++) { g_perm0[c] = in_perm_r[c]; g_xprune0[c] = in_xprune[c]; g_ispruned0[c] = in_ispruned[c]; g_lbusy0[c] = in_lbusy[c]; g_colbeg0[c] = in_colbeg[c];
     g_colend0[c] = in_colend[c]; g_supno0[c] = in_supno[c]; g_xlsub0[c] = in_xlsub[c]; g_xlsub_end0[c] = in_xlsub_end[c]; }
   for (c = 0; c <= M; c++) { g_xsup0[c] = in_xsup[c]; g_xsup_end0[c] = in_xsup_end[c]; }
@@ -132,6 +142,8 @@ void h_panel_dfs(void) {
     __CPROVER_assert(0 <= r && r < M && in_perm_r[r] == EMPTY && g_reach[t][r], "panel_lsub: every recorded row is an unpivoted row reachable from A(:,jj)");
   }
   if (g_p < cnt) __CPROVER_assert(in_panel_lsub[t * M + g_p] != in_panel_lsub[t * M + g_q], "panel_lsub: no duplicates");
+  if (g_p >= cnt) __CPROVER_assert(in_panel_lsub[t * M + g_p] == g_plsub0[t * M + g_p], "panel_lsub: nothing written beyond w_lsub_end");
+  if (g_q >= cnt) __CPROVER_assert(in_panel_lsub[t * M + g_q] == g_plsub0[t * M + g_q], "panel_lsub: nothing written beyond w_lsub_end (first slot)");
   found = 0; for (p = 0; p < M; p++) if (p < cnt && in_panel_lsub[t * M + p] == g_r) found = 1;
   if (g_reach[t][g_r] && in_perm_r[g_r] == EMPTY) __CPROVER_assert(found, "panel_lsub: every unpivoted row reachable from A(:,jj) is recorded");
   __CPROVER_assert(in_spa_marker[t * M + g_r] == (g_reach[t][g_r] ? jj : g_spa0[t * M + g_r]), "spa_marker: stamped jj exactly at the reachable rows, kept elsewhere");
@@ -139,8 +151,8 @@ void h_panel_dfs(void) {
   __CPROVER_assert(in_repfnz[t * M + g_k] == g_fnz[t][g_k], "repfnz: smallest pivoted non-busy column of the segment, EMPTY if the supernode is not reached");
   /* (b) dense */
   last = -1; for (p = 0; p < NNZ; p++) if (g_colbeg0[jj] <= p && p < g_colend0[jj] && g_asub0[p] == g_r) last = p;
-  if (last >= 0) __CPROVER_assert(in_dense[t * M + g_r] == g_a0[last], "dense: A(:,jj) scattered");
-  else __CPROVER_assert(in_dense[t * M + g_r] == g_dense0[t * M + g_r], "dense: nothing else written");
+  if (last >= 0) __CPROVER_assert(VEQ(in_dense[t * M + g_r], g_a0[last]), "dense: A(:,jj) scattered");
+  else __CPROVER_assert(VEQ(in_dense[t * M + g_r], g_dense0[t * M + g_r]), "dense: nothing else written");
   /* (b) segment list of the panel */
   __CPROVER_assert(0 <= in_nseg && in_nseg <= M, "nseg in range");
   for (p = 0; p < M; p++) if (p < in_nseg) {
@@ -152,6 +164,8 @@ void h_panel_dfs(void) {
     ia = in_segrep[g_p]; ib = in_segrep[g_q];
     __CPROVER_assert(!edge(ib, ia), "segrep: topological order (a representative appears after everything it reaches)");
   }
+  if (g_p >= in_nseg) __CPROVER_assert(in_segrep[g_p] == g_segrep0[g_p], "segrep: nothing written beyond nseg");
+  if (g_q >= in_nseg) __CPROVER_assert(in_segrep[g_q] == g_segrep0[g_q], "segrep: nothing written beyond nseg (first slot)");
   found = 0; for (p = 0; p < M; p++) if (p < in_nseg && in_segrep[p] == g_k) found = 1;
   if (g_repreached[g_k]) __CPROVER_assert(found, "segrep: every reached representative is listed");
   /* (d),(e) markers and frame */
@@ -159,27 +173,47 @@ void h_panel_dfs(void) {
   __CPROVER_assert(in_marker[g_k] == g_marker0[g_k] && in_marker[2 * M + g_k] == g_marker0[2 * M + g_k], "marker sections of factor_snode and column_dfs untouched");
   __CPROVER_assert(in_perm_r[g_k] == g_perm0[g_k] && in_xprune[g_k] == g_xprune0[g_k] && in_ispruned[g_k] == g_ispruned0[g_k] && in_lbusy[g_k] == g_lbusy0[g_k], "perm_r, xprune, ispruned, lbusy untouched");
   __CPROVER_assert(in_colbeg[g_k] == g_colbeg0[g_k] && in_colend[g_k] == g_colend0[g_k], "A column pointers untouched");
-  for (p = 0; p < NNZ; p++) __CPROVER_assert(in_asub[p] == g_asub0[p] && in_a[p] == g_a0[p], "A entries untouched");
+  for (p = 0; p < NNZ; p++) __CPROVER_assert(in_asub[p] == g_asub0[p] && VEQ(in_a[p], g_a0[p]), "A entries untouched");
   __CPROVER_assert(in_supno[g_k] == g_supno0[g_k] && in_xlsub[g_k] == g_xlsub0[g_k] && in_xlsub_end[g_k] == g_xlsub_end0[g_k] && in_xsup[g_k] == g_xsup0[g_k] && in_xsup_end[g_k] == g_xsup_end0[g_k] && in_xsup[M] == g_xsup0[M] && in_xsup_end[M] == g_xsup_end0[M], "Glu maps untouched");
   for (p = 0; p < LC; p++) __CPROVER_assert(in_lsub[p] == g_lsub0[p], "Glu->lsub untouched");
   __CPROVER_assert(in_Glu.nsuper == g_Glu0.nsuper && in_Glu.nextl == g_Glu0.nextl && in_Glu.nzlmax == g_Glu0.nzlmax && in_Glu.lsub == g_Glu0.lsub && in_Glu.xlsub == g_Glu0.xlsub && in_Glu.supno == g_Glu0.supno, "Glu scalars and pointers untouched");
 
-  /* ---------- canaries ---------- */
+  /* ---------- canaries (CAN: bit mask, every variant keeps the ones its shape can reach; each costs one solver call) ---------- */
   __CPROVER_assert(0, "canary: panel_dfs returns");
-#if JCOL >= 1
-  if (in_nseg >= 1 && in_w_lsub_end[0] >= 2) __CPROVER_assert(0, "canary: a segment and L rows found");
+#if CAN & 2
+  if (in_nseg >= 1 && in_w_lsub_end[0] >= 1 && g_fnz[0][in_segrep[0]] != EMPTY) __CPROVER_assert(0, "canary: a segment and L rows found");
+#endif
+#if CAN & 4
   if (g_reach[0][g_r] && in_perm_r[g_r] != EMPTY && busy(in_perm_r[g_r]) && in_nseg == 0) __CPROVER_assert(0, "canary: a busy descendant is skipped");
+#endif
+#if CAN & 8
   if (g_reach[0][g_r] && in_perm_r[g_r] != EMPTY && in_lbusy[in_perm_r[g_r]] != EMPTY && !busy(in_perm_r[g_r]) && in_nseg >= 1) __CPROVER_assert(0, "canary: stale lbusy stamp, descendant explored");
-  if (in_ispruned[g_k] && g_repreached[g_k] && g_hi[g_k] > g_lo[g_k]) __CPROVER_assert(0, "canary: pruned supernode scanned");
 #endif
-#if JCOL >= 2
-  if (in_nseg == 2 && in_parent[in_segrep[0]] == in_segrep[1]) __CPROVER_assert(0, "canary: dfs of depth two");
-  if (in_nseg == 2 && g_fnz[0][1] == 0 && in_xsup_end[in_supno[0]] == 2) __CPROVER_assert(0, "canary: segment of two columns, first nonzero lowered");
+#if CAN & 16
+  if (in_ispruned[g_k] && g_repreached[g_k] && g_hi[g_k] > g_lo[g_k] && in_w_lsub_end[0] >= 1) __CPROVER_assert(0, "canary: pruned supernode scanned");
 #endif
-#if W >= 2
+#if CAN & 32
+  if (in_nseg == 2 && in_parent[in_segrep[0]] == in_segrep[1] && g_fnz[0][in_segrep[0]] != EMPTY) __CPROVER_assert(0, "canary: dfs of depth two");
+#endif
+#if CAN & 64
+  if (in_nseg == 1 && in_segrep[0] == 1 && g_fnz[0][1] == 0 && in_colend[in_jcol] - in_colbeg[in_jcol] == 2 && in_perm_r[in_asub[in_colbeg[in_jcol]]] == 1) __CPROVER_assert(0, "canary: segment of two columns, first nonzero lowered by a later entry of A's column");
+#endif
+#if CAN & 128
   if (in_w_lsub_end[0] >= 1 && in_w_lsub_end[1] >= 1 && in_panel_lsub[0] != in_panel_lsub[M]) __CPROVER_assert(0, "canary: two panel columns with different structures");
-#if JCOL >= 1
+#endif
+#if CAN & 256
   if (in_nseg == 1 && g_fnz[0][in_segrep[0]] == EMPTY) __CPROVER_assert(0, "canary: segment found by the second column only");
 #endif
+#if CAN & 512
+  if (in_nseg == 2 && in_parent[in_segrep[0]] == in_segrep[1] && g_fnz[0][in_segrep[0]] != EMPTY && g_hi[in_segrep[1]] - g_lo[in_segrep[1]] >= 2 && g_perm0[g_lsub0[g_lo[in_segrep[1]]]] != EMPTY && in_w_lsub_end[0] >= 1) __CPROVER_assert(0, "canary: scan of the parent resumed after the child returned");
+#endif
+#if CAN & 1024
+  if (in_colend[in_jcol] - in_colbeg[in_jcol] >= 1 && in_nseg == 2 && in_parent[in_segrep[1]] == EMPTY && in_parent[in_segrep[0]] == EMPTY && g_fnz[0][in_segrep[0]] != EMPTY && g_fnz[0][in_segrep[0]] < in_perm_r[in_asub[in_colbeg[in_jcol]]] && edge(in_segrep[1], in_segrep[0])) __CPROVER_assert(0, "canary: first nonzero lowered inside the dfs of a later entry");
+#endif
+#if CAN & 2048
+  if (in_colend[in_jcol] - in_colbeg[in_jcol] >= 2 && in_asub[in_colbeg[in_jcol]] == in_asub[in_colbeg[in_jcol] + 1] && in_w_lsub_end[0] == 1) __CPROVER_assert(0, "canary: duplicate entry in A's column");
+#endif
+#if CAN & 4096
+  if (in_nseg >= 1 && g_fnz[0][g_k] != EMPTY && g_lo[g_k] < g_hi[g_k] && g_perm0[g_lsub0[g_lo[g_k]]] != EMPTY && busy(g_perm0[g_lsub0[g_lo[g_k]]])) __CPROVER_assert(0, "canary: busy row met inside the dfs");
 #endif
 }
